@@ -41,6 +41,12 @@ def run(ctx, crate):
     rule_manual_tick_gated(ctx, crate)
     rule_no_guard_escape(ctx, crate)
     rule_ticker_exit_conditions(ctx, crate)
+    # a panic in the ticker thread ends it silently with the slot still occupied (same frozen bar): the thread's own code
+    # (progress_bar.rs only: the draw path is covered by C14/C18, the drop of the last state reference by C04) has no
+    # unaudited panic edge
+    from .. import ledger as Lg
+    Lg.run_ledger(ctx, crate, "C08", "R-TICKER-THREAD-TOTAL", [r"progress_bar::TickerControl::run", r"progress_bar::Ticker::new::\{closure#0\}"],
+                  [r"(state|multi|draw_target|style|format|iter)::.*", r"<(state|multi|draw_target|style|format|iter)::.*"], floor_edges=1)
 
 
 def no_nested_multi(ctx, crate):
